@@ -394,7 +394,7 @@ def rw_chain_loop(text, nth, ctype, add_method, fired, fname):
         SRC.iter().copied() { .take_while(|P| E) | .filter(|P| B) }* .collect()
     — needed when one of the closures captures `&mut` state, which Verus closures cannot — becomes
     the block expression
-        { let mut vx_c_k = <CollectionType>::new();
+        { let mut vx_c_k = <CollectionType>::new();      // written `<T>::new()`
           for vx_e_k in SRC.iter() { let vx_x_k = *vx_e_k;            // iter().copied()
             if !({ let P = &vx_x_k; E }) { break; }                     // take_while(|P| E)
             if ({ let P = &vx_x_k; B }) {                               // filter(|P| B)
@@ -450,7 +450,7 @@ def rw_chain_loop(text, nth, ctype, add_method, fired, fname):
         k = nth
         ed = Edits(text)
         prev_end = src.t(s_start).pos          # text position where the pending replacement starts
-        pending = ('{ let mut vx_c_%d = %s::new(); for vx_e_%d in %s.iter() { let vx_x_%d = *vx_e_%d; '
+        pending = ('{ let mut vx_c_%d = <%s>::new(); for vx_e_%d in %s.iter() { let vx_x_%d = *vx_e_%d; '
                    % (k, ctype, k, srctxt, k, k))
         closers = ''
         for (nm, op, cp) in adapters:
